@@ -13,6 +13,7 @@ from engine import cfg as cfgmod
 from engine.bounds import Bounds, loop_invariants
 from engine.cfg import CFG, relations
 from engine.extract import Request
+from engine.algebra import LocalDefs
 from engine.tree import key, roots
 
 UNITS = ["src/test/test_Array.cxx", "src/test/test_VectorWithOffset.cxx", "src/buildblock/Array.cxx"]
@@ -415,6 +416,91 @@ def rule_g_no_self_comparison(ctx, fns):
     return n
 
 
+def rule_h_nd_resize_starts_new_rows_empty(ctx, fn):
+    """Induction step of `newly exposed elements are zero` for N > 1 dimensions.  Array<N>::resize(range) resizes the outer vector and
+    then every sub-array; the outer vector keeps dropped sub-arrays in its spare capacity, so a sub-array that is exposed AGAIN still
+    has its old range and values and its own resize() would treat them as surviving.  Hence: the outer index range is recorded before
+    the outer resize, and every element whose index lies outside it (or every element, if the array was empty) is emptied
+    (recycle() / assignment of a default-constructed array) before its resize()."""
+    cfg = CFG(fn)
+    fid = fn.qn + "(" + fn.sig + ")"
+    outer = [c for c in fn.calls() if (c.callee or "").endswith("VectorWithOffset::resize") and c.i in cfg.pos]
+    inner = [c for c in fn.calls() if c.k == "CXXMemberCallExpr" and (c.callee or "").endswith("Array::resize") and c.c and key(c.c[0].strip()).startswith(("*", "(* ")) and any(a.k in ("ForStmt", "WhileStmt") for a in c.ancestors())]
+    if len(outer) != 1 or len(inner) != 1:
+        ctx.unrec(fid, "expected one resize of the outer vector and one resize of the elements in a loop")
+        return 0
+    R = inner[0]
+    elem = key(R.c[0].strip())
+    loop = [a for a in R.ancestors() if a.k in ("ForStmt", "WhileStmt")][0]
+    defs = LocalDefs(fn)
+    empt = []
+    for m in loop.walk():
+        if m.k == "CXXMemberCallExpr" and (m.callee or "").split("::")[-1] == "recycle" and m.c and key(m.c[0].strip()) == elem:
+            empt.append(m)
+        elif m.k in ("BinaryOperator", "CXXOperatorCallExpr") and m.op == "=" and key(m.c[-2].strip()) == elem and m.c[-1].strip().k in ("CXXTemporaryObjectExpr", "CXXConstructExpr") and not m.c[-1].strip().c:
+            empt.append(m)
+    if not empt:
+        ctx.ob("C11.h-new-rows-start-empty", fid, "re-exposed-sub-arrays", False, R.where(), "no element is emptied before `%s.resize(..)`: a sub-array that was dropped by an earlier resize (it stays in the outer vector's spare capacity) and is exposed again keeps its old values instead of being zero" % key(R.c[0], True))
+        return 1
+    E = empt[0]
+    # the emptying precedes the element's resize in the loop body and is guarded by `outside the recorded old range`
+    precedes = cfg.dominates(E, R) or cfg.paths_avoiding([cfg.pos[E.i]], lambda x: False, target_pred=lambda x: x.i == R.i, to_exit=False) is not None
+    guard = [a for a in E.ancestors() if a.k == "IfStmt" and any(x is a for x in loop.walk())]
+    ok, det = False, ""
+    if not guard:
+        ok, det = precedes, "every element is emptied before its resize"  # stronger than needed only if surviving values may be lost: checked next
+        # emptying unconditionally would destroy surviving elements
+        ok, det = False, "every element is emptied before its resize: surviving elements lose their values"
+    else:
+        cnd = guard[0].c[0].strip()
+        parts = []
+
+        def disj(c):
+            c = c.strip()
+            if c.k == "BinaryOperator" and c.op == "||":
+                disj(c.c[0])
+                disj(c.c[1])
+            else:
+                parts.append(c)
+
+        disj(cnd)
+        def in_graph(n):
+            while n is not None and n.i not in cfg.pos:
+                n = n.parent
+            return n
+
+        def before(d):
+            vd = defs.decl.get(d)
+            g = in_graph(vd) if vd is not None else None
+            return g is not None and vd.c and cfg.dominates(g, outer[0]) and g.i != outer[0].i and not defs.writes.get("v%d" % d)
+
+        lo = hi = emp = False
+        idx = None
+        for c in parts:
+            if c.k == "DeclRefExpr" and c.get("dk") == "local" and before(c.get("d")) and re.search(r"\(== this\.size\(\) 0\)|this\.empty\(\)|\(== this\.get_length\(\) 0\)", key(defs.decl[c.get("d")].c[0].strip())):
+                emp = True
+            elif c.k == "BinaryOperator" and c.op in ("<", ">") and all(x.strip().k == "DeclRefExpr" for x in c.c):
+                a, b = c.c[0].strip(), c.c[1].strip()
+                bd = b.get("d")
+                if before(bd):
+                    src = key(defs.decl[bd].c[0].strip())
+                    if c.op == "<" and src == "this.get_min_index()":
+                        lo, idx = True, a.get("d") if idx in (None, a.get("d")) else -1
+                    if c.op == ">" and src == "this.get_max_index()":
+                        hi, idx = True, a.get("d") if idx in (None, a.get("d")) else -1
+        # the index runs with the iterator: initialised with the (new) minimum index after the outer resize and incremented once per turn
+        idx_ok = False
+        if idx not in (None, -1) and defs.decl.get(idx) is not None and defs.decl[idx].c:
+            gi = in_graph(defs.decl[idx])
+            init_ok = key(defs.decl[idx].c[0].strip()) == "this.get_min_index()" and gi is not None and cfg.dominates(outer[0], gi)
+            incs = [m for m in loop.walk() if m.k == "UnaryOperator" and m.op in ("++",) and m.c[0].strip().k == "DeclRefExpr" and m.c[0].strip().get("d") == idx]
+            idx_ok = init_ok and len(incs) == 1 and len(defs.writes.get("v%d" % idx, [])) == 1
+        ok = precedes and lo and hi and emp and idx_ok
+        det = "outer range recorded before the outer resize; an element with index below the old minimum, above the old maximum, or any element of a previously empty array is emptied before its resize" if ok else "emptying is not guarded by `was empty || index < old minimum || index > old maximum` with the outer range recorded before the outer resize (below=%s above=%s was-empty=%s index-in-step=%s precedes=%s)" % (lo, hi, emp, idx_ok, precedes)
+    ctx.ob("C11.h-new-rows-start-empty", fid, "re-exposed-sub-arrays", ok, R.where(), det)
+    return 1
+
+
 def run(ctx):
     ctx.explanation = (
         "Decides from the source, for VectorWithOffset, NumericVectorWithOffset and Array: (a) every raw subscript X.num[i] "
@@ -460,6 +546,13 @@ def run(ctx):
             break
     else:
         ctx.fail_broken("anchor Array<1,T>::resize(int,int) instantiation not found")
+    for fn in defs:
+        if fn.qn == "stir::Array::resize" and "IndexRange" in fn.sig and not fn.is_dependent and fn.cfg_raw and any((c.callee or "").endswith("Array::resize") for c in fn.calls()):
+            rule_h_nd_resize_starts_new_rows_empty(ctx, fn)
+            break
+    else:
+        ctx.fail_broken("anchor Array<N,T>::resize(const IndexRange<N>&) instantiation (N > 1) not found")
+    ctx.require_count("C11.h-new-rows-start-empty", 1)
     ne = 0
     seen_e = set()
     for fn in defs:
